@@ -44,9 +44,9 @@ func (c *Client) ListenUnix(socketPath string) (net.Listener, error) {
 	if !ok {
 		return nil, errors.New("ssh: streamlocal-forward@openssh.com request denied by peer")
 	}
-	ch := c.forwards.add("unix", socketPath)
+	e := c.forwards.add("unix", socketPath)
 
-	return &unixListener{socketPath, c, ch}, nil
+	return &unixListener{socketPath, c, e}, nil
 }
 
 func (c *Client) dialStreamLocal(socketPath string) (Channel, error) {
@@ -65,15 +65,15 @@ func (c *Client) dialStreamLocal(socketPath string) (Channel, error) {
 type unixListener struct {
 	socketPath string
 
-	conn *Client
-	in   <-chan forward
+	conn  *Client
+	entry *forwardEntry
 }
 
 // Accept waits for and returns the next connection to the listener.
 func (l *unixListener) Accept() (net.Conn, error) {
-	s, ok := <-l.in
-	if !ok {
-		return nil, io.EOF
+	s, err := l.entry.accept()
+	if err != nil {
+		return nil, err
 	}
 	ch, incoming, err := s.newCh.Accept()
 	if err != nil {
@@ -98,7 +98,7 @@ func (l *unixListener) Accept() (net.Conn, error) {
 // Close closes the listener.
 func (l *unixListener) Close() error {
 	// this also closes the listener.
-	l.conn.forwards.remove("unix", l.socketPath)
+	l.conn.forwards.remove(l.entry)
 	m := streamLocalChannelForwardMsg{
 		l.socketPath,
 	}
